@@ -15,6 +15,7 @@
 -/
 import Hw.Io.SyntheticTopo
 import Hw.Io.SyntheticDump
+import Hw.Io.SyntheticWF
 import Hw.Topo.WF
 import Driver.Topo
 import Driver.Strings
@@ -236,7 +237,11 @@ def step (u : Unit) (line : String) : Unit × String :=
                 | some f => (u, "load DUMP-DIFF " ++ f)
                 | none =>
                   let mv := wfCheck md
-                  if mv.isEmpty then (u, "load ok regular") else (u, "load MODEL-WF-FAIL " ++ ",".intercalate (mv.take 4))
+                  -- `topoOK`: the side condition of the general well-formedness theorems (Hw.Io.SyntheticWF, C07_build_wf_*):
+                  -- every topology the model builds and hwloc agrees with must satisfy it
+                  if !mv.isEmpty then (u, "load MODEL-WF-FAIL " ++ ",".intercalate (mv.take 4))
+                  else if !topoOK t then (u, "load HYP-FAIL topoOK")
+                  else (u, "load ok regular")
               else
                 let what := if a.levels != t.levels then "levels" else if a.rootMem != t.rootMem then "rootmem"
                   else if a.puIdx != t.puIdx then "puidx" else "numaidx"
